@@ -13,9 +13,45 @@ use tokio::io::{AsyncReadExt, AsyncWriteExt};
 use tokio::sync::Notify;
 use tokio_util::compat::TokioAsyncReadCompatExt;
 
+/// Server half of a connection: passes everything through and logs every write the server hands to the transport.
+pub struct LoggedIo {
+	inner: tokio::io::DuplexStream,
+	conn: usize,
+}
+
+impl tokio::io::AsyncRead for LoggedIo {
+	fn poll_read(mut self: std::pin::Pin<&mut Self>, cx: &mut std::task::Context<'_>, buf: &mut tokio::io::ReadBuf<'_>) -> std::task::Poll<std::io::Result<()>> {
+		std::pin::Pin::new(&mut self.inner).poll_read(cx, buf)
+	}
+}
+
+impl tokio::io::AsyncWrite for LoggedIo {
+	fn poll_write(mut self: std::pin::Pin<&mut Self>, cx: &mut std::task::Context<'_>, buf: &[u8]) -> std::task::Poll<std::io::Result<usize>> {
+		let r = std::pin::Pin::new(&mut self.inner).poll_write(cx, buf);
+		if let std::task::Poll::Ready(Ok(n)) = &r {
+			if *n > 0 {
+				sched::log(format!("c{}:srv-write:{n}", self.conn));
+			}
+		}
+		r
+	}
+	fn poll_flush(mut self: std::pin::Pin<&mut Self>, cx: &mut std::task::Context<'_>) -> std::task::Poll<std::io::Result<()>> {
+		std::pin::Pin::new(&mut self.inner).poll_flush(cx)
+	}
+	fn poll_shutdown(mut self: std::pin::Pin<&mut Self>, cx: &mut std::task::Context<'_>) -> std::task::Poll<std::io::Result<()>> {
+		let r = std::pin::Pin::new(&mut self.inner).poll_shutdown(cx);
+		if r.is_ready() {
+			sched::log(format!("c{}:srv-shutdown", self.conn));
+		}
+		r
+	}
+}
+
 #[derive(Clone, Debug, PartialEq)]
 pub enum HStep {
 	Accept,
+	/// accept(), but the handler gives up (drops the accept future) if the scheduler releases its give-up point first
+	AcceptCancellable,
 	Reject,
 	DropPending,
 	Send,
@@ -86,11 +122,13 @@ pub struct SrvCfg {
 	pub buffer: u32,
 	/// steps of the `slow` call handler (each preceded by a point)
 	pub slow_steps: usize,
+	/// the moment a WebSocket peer connects is a scheduling point of its own
+	pub connect_points: bool,
 }
 
 impl Default for SrvCfg {
 	fn default() -> Self {
-		SrvCfg { conns: vec![], scripts: vec![], stop: false, stop_twice: false, drop_handles: false, max_subs: 16, max_conns: 16, buffer: 16, slow_steps: 1 }
+		SrvCfg { conns: vec![], scripts: vec![], stop: false, stop_twice: false, drop_handles: false, max_subs: 16, max_conns: 16, buffer: 16, slow_steps: 1, connect_points: false }
 	}
 }
 
@@ -153,6 +191,26 @@ fn methods(ctx: Ctx) -> Methods {
 					},
 					None => {}
 				},
+				HStep::AcceptCancellable => {
+					if let Some(p) = pending.take() {
+						tokio::select! {
+							biased;
+							r = p.accept() => match r {
+								Ok(s) => {
+									sched::log(format!("{tag}:accept:ok"));
+									sinks.push(Some(s));
+								}
+								Err(_) => {
+									sched::log(format!("{tag}:accept:err"));
+									return SubscriptionCloseResponse::NotifErr("after-failed-accept".into());
+								}
+							},
+							_ = sched::point(format!("{tag}:give-up-accept")) => {
+								sched::log(format!("{tag}:accept:cancelled"));
+							}
+						}
+					}
+				}
 				HStep::Reject => {
 					if let Some(p) = pending.take() {
 						p.reject(ErrorObjectOwned::owned::<()>(4001, "rejected", None)).await;
@@ -251,7 +309,7 @@ pub fn setup(cfg: &SrvCfg) -> SrvState {
 		let stop2 = stop.clone();
 		let done = serve_done.clone();
 		tokio::spawn(async move {
-			let r = jsonrpsee_server::serve_with_graceful_shutdown(a, svc, stop2.shutdown()).await;
+			let r = jsonrpsee_server::serve_with_graceful_shutdown(LoggedIo { inner: a, conn: c }, svc, stop2.shutdown()).await;
 			sched::log(format!("c{c}:serve-future-done:{}", r.is_ok()));
 			done.lock().unwrap()[c] = true;
 		});
@@ -259,7 +317,7 @@ pub fn setup(cfg: &SrvCfg) -> SrvState {
 			Conn::Ws(script) => {
 				let sub_ids = sub_ids.clone();
 				let sub_notify = sub_notify.clone();
-				tokio::spawn(ws_peer(c, b, script, sub_ids, sub_notify));
+				tokio::spawn(ws_peer(c, b, script, sub_ids, sub_notify, cfg.connect_points));
 			}
 			Conn::Http(script) => {
 				tokio::spawn(http_peer(c, b, script));
@@ -280,8 +338,8 @@ pub fn setup(cfg: &SrvCfg) -> SrvState {
 	}
 	drop(stop);
 	let mut handle = Some(handle);
-	// stopped() watcher
-	{
+	// stopped() watcher (it owns a handle, so it cannot exist when the scenario is "every handle is dropped")
+	if !cfg.drop_handles {
 		let h = handle.as_ref().unwrap().clone();
 		tokio::spawn(async move {
 			h.stopped().await;
@@ -313,7 +371,11 @@ pub fn setup(cfg: &SrvCfg) -> SrvState {
 	SrvState { handle, serve_done, sub_ids, guard_probe: Arc::new(Mutex::new(Vec::new())) }
 }
 
-async fn ws_peer(c: usize, io: tokio::io::DuplexStream, script: Vec<PeerAct>, sub_ids: Arc<Mutex<HashMap<(usize, usize), Value>>>, sub_notify: Arc<Notify>) {
+async fn ws_peer(c: usize, io: tokio::io::DuplexStream, script: Vec<PeerAct>, sub_ids: Arc<Mutex<HashMap<(usize, usize), Value>>>, sub_notify: Arc<Notify>, connect_point: bool) {
+	if connect_point {
+		sched::point(format!("c{c}:connect")).await;
+	}
+	sched::log(format!("c{c}:handshake-sent"));
 	let mut client = soketto::handshake::Client::new(io.compat(), "localhost", "/");
 	match client.handshake().await {
 		Ok(soketto::handshake::ServerResponse::Accepted { .. }) => {}
